@@ -5,4 +5,4 @@ Require Import Base EditDistance DictModel Fuzzy.
 Extraction Language OCaml.
 Extraction "../ocaml/gen/c15_model.ml" wf_u8 wf_min_alloc lev_fast spec_stream spec_stream_fast word_id normalized
   mut_extend fst_new mut_ops fst_ops merged_ops text_leb text_eqb
-  fst_merged fst_fuzzy fst_admissible.
+  fst_merged fst_fuzzy fst_admissible adj_sorted.
